@@ -69,6 +69,18 @@ Proof.
 Qed.
 Print Assumptions C08_union_member.
 
+(* ... and a value whose Go type is bound to no object type stays in the interface the field declares
+   (the case the property leaves out): its selection set is evaluated against the interface itself *)
+Theorem C08_unbound_stays_in_the_interface :
+  forall S G obj static,
+    (forall gt, gotype_of G obj = Some gt -> match lookup gt S with Some (DObject _ _) => False | _ => True end) ->
+    concrete_type S G obj static = static.
+Proof.
+  intros S G obj static H. unfold concrete_type. destruct (gotype_of G obj) as [gt|]; [|reflexivity].
+  specialize (H gt eq_refl). destruct (lookup gt S) as [[k|fs ifaces|fs|ms|fs]|]; try reflexivity. contradiction.
+Qed.
+Print Assumptions C08_unbound_stays_in_the_interface.
+
 (* __typename reports the type the selection set is evaluated against (the concrete type) *)
 Theorem C08_typename :
   forall S G frags any md vars fuel obj id alias args fsels t result depth s,
